@@ -516,6 +516,7 @@ def run(rep):
     for r in pres:
         if r['problems']:
             rep.finding('walk-revisits-moved' if r['revisit'] else 'unlisted', {'scenario': r['scenario'], 'what': r['problems'][:5], 'config': r['config']})
+    import isolation; rep.coverage['isolation'] = isolation.stage(rep, tools, 'C06')     # nothing leaks from one message / maildir / rule into the next (tools/isolation.py)
     if corr_bad and not rep.violations:
         rep.violation({'obligation': 'correspondence matches_inspect/expr_inspect <-> Model/Inspect.lean (dry-run text)', 'disagreements': len(corr_bad),
                        'examples': [dict(c.readable(), implementation=c.impl[-900:], model=(c.model or '')[-900:]) for c in corr_bad[:4]]}, False)
@@ -550,6 +551,9 @@ def run(rep):
 
 
 def replay(rep, path):
+    import isolation
+    if isolation.replay_file(rep, path):
+        return
     import json
     print(json.dumps(json.load(open(path)), indent=1)[:3000])
     sc = vlib.Scratch()
